@@ -7,6 +7,7 @@ import (
 	"go/ast"
 	"go/constant"
 	"go/token"
+	"strconv"
 	"strings"
 )
 
@@ -19,9 +20,38 @@ type mgCtx struct {
 	m          *minigo
 	fn         *mgFunc
 	env        map[string]*mgLocal
-	guards     []string // divisors of the statement being translated that are not constants
+	guards     []string // lines written before the statement being translated: `if (divisor =? 0) then None else`, `if slice_oob s i then None else`, `TRY tmp <- call IN`
 	inCond     int      // > 0 under && / ||
 	sawPartial bool
+	ntmp       int // temporaries of hoisted calls
+	loopDepth  int // > 0 inside a range loop body (no return there)
+}
+
+// hoist writes a line before the statement being translated: a run-time check or a partial call, whose failure is the
+// function's None.  Only where Go would evaluate it unconditionally.
+func (c *mgCtx) hoist(line string, at ast.Node, what string) {
+	if c.inCond > 0 {
+		mgFail(at, "%s under && or || (its panic cannot be hoisted)", what)
+	}
+	c.sawPartial = true
+	for _, g := range c.guards {
+		if g == line {
+			return
+		}
+	}
+	c.guards = append(c.guards, line)
+}
+
+func (c *mgCtx) tmp() string {
+	c.ntmp++
+	return fmt.Sprintf("tmp%d", c.ntmp)
+}
+
+// bindPartial: a call that can panic, in expression position
+func (c *mgCtx) bindPartial(v mgVal, at ast.Node, what string) mgVal {
+	t := c.tmp()
+	c.hoist("TRY "+t+" <- "+v.Txt+" IN", at, what)
+	return mgVal{Txt: t, T: v.T, Atom: true}
 }
 
 // an expression: Coq text, Go type (nil = untyped integer constant), constant value if constant
@@ -151,6 +181,22 @@ func (c *mgCtx) exprIota(e ast.Expr, iota int64) mgVal {
 // have a type of the same representation (the Go compiler has checked assignability; this guards the
 // translator's own type assignment).
 func (c *mgCtx) coerce(v mgVal, want *mgType, at ast.Node) mgVal {
+	if v.T != nil && v.T.Kind == mgNil {
+		switch want.Kind {
+		case mgLocOpt:
+			return mgVal{Txt: "None", T: want, Atom: true}
+		case mgError:
+			return mgVal{Txt: "err_nil", T: want, Atom: true}
+		}
+		mgFail(at, "nil used as %s", want)
+	}
+	if v.T != nil && v.T.Kind == mgLoc && want.Kind == mgLocOpt {
+		return mgVal{Txt: "Some " + v.par(), T: want} // time.UTC / time.Local are not nil
+	}
+	if v.T != nil && v.T.Kind == mgLocOpt && want.Kind == mgLoc {
+		// a nil-able location where the library dereferences it (Time.In, time.Date): nil panics
+		return c.bindPartial(mgVal{Txt: v.Txt, T: want}, at, "use of a nil-able *time.Location")
+	}
 	if v.T == nil {
 		if want.Kind != mgInt {
 			mgFail(at, "integer constant used as %s", want)
@@ -162,7 +208,11 @@ func (c *mgCtx) coerce(v mgVal, want *mgType, at ast.Node) mgVal {
 		return v
 	}
 	if !v.T.compatible(want) {
-		mgFail(at, "translator type assignment: %s where %s is expected (%s)", v.T, want, exprText(at.(ast.Expr)))
+		txt := "?"
+		if e, ok := at.(ast.Expr); ok {
+			txt = exprText(e)
+		}
+		mgFail(at, "translator type assignment: %s where %s is expected (%s)", v.T, want, txt)
 	}
 	return v
 }
@@ -187,10 +237,27 @@ func (c *mgCtx) lib(id *ast.Ident) (string, bool) {
 func (c *mgCtx) expr(e ast.Expr) mgVal {
 	switch x := e.(type) {
 	case *ast.BasicLit:
+		if x.Kind == token.STRING {
+			return mgVal{Txt: mgBytesLit(c.strLit(x)), T: mgBuiltin("string"), Atom: true}
+		}
 		if x.Kind != token.INT {
-			mgFail(x, "literal %s is outside the fragment (integers only)", x.Value)
+			mgFail(x, "literal %s is outside the fragment (integers and strings only)", x.Value)
 		}
 		return mgConstVal(constant.MakeFromLiteral(x.Value, token.INT, 0), nil)
+	case *ast.StarExpr:
+		// *c for the pointer receiver c
+		if id, ok := x.X.(*ast.Ident); ok && c.fn.PtrRecv && id.Name == c.fn.RecvGo {
+			return c.ident(id)
+		}
+		mgFail(x, "dereference %s is outside the fragment (only *c for the pointer receiver c)", exprText(x))
+	case *ast.IndexExpr:
+		s := c.expr(x.X)
+		if s.T == nil || s.T.Kind != mgSlice || s.T.Elem.Kind != mgInt {
+			mgFail(x, "index of %s (slices of integers only)", s.T)
+		}
+		i := c.coerce(c.expr(x.Index), mgBuiltin("int"), x.Index)
+		c.hoist("if slice_oob "+s.par()+" "+i.par()+" then None else", x, "the index expression "+exprText(x))
+		return mgVal{Txt: "slice_get " + s.par() + " " + i.par(), T: s.T.Elem}
 	case *ast.ParenExpr:
 		return c.expr(x.X)
 	case *ast.Ident:
@@ -226,6 +293,8 @@ func (c *mgCtx) ident(x *ast.Ident) mgVal {
 	switch x.Name {
 	case "true", "false":
 		return mgVal{Txt: x.Name, T: mgBuiltin("bool"), Atom: true}
+	case "nil":
+		return mgVal{Txt: "nil", T: &mgType{Kind: mgNil}, Atom: true}
 	}
 	if k, ok := c.m.consts[x.Name]; ok {
 		if k.Coq != mgZ(mgBig(k.Val)) {
@@ -322,6 +391,36 @@ func (c *mgCtx) binary(x *ast.BinaryExpr) mgVal {
 		return mgVal{Txt: a.par() + " " + op + " " + b.par(), T: a.T}
 	}
 	a, b := c.expr(x.X), c.expr(x.Y)
+	if x.Op == token.EQL || x.Op == token.NEQ {
+		neg := func(s string) mgVal {
+			if x.Op == token.NEQ {
+				return mgVal{Txt: "negb (" + s + ")", T: mgBuiltin("bool")}
+			}
+			return mgVal{Txt: s, T: mgBuiltin("bool")}
+		}
+		isNil := func(v mgVal) bool { return v.T != nil && v.T.Kind == mgNil }
+		if isNil(a) && !isNil(b) {
+			a, b = b, a
+		}
+		if isNil(b) {
+			if a.T == nil {
+				mgFail(x, "comparison of a constant with nil")
+			}
+			switch a.T.Kind {
+			case mgLocOpt:
+				return neg("loc_is_nil " + a.par())
+			case mgError: // an error is the boolean "not nil"
+				if x.Op == token.NEQ {
+					return mgVal{Txt: a.Txt, T: mgBuiltin("bool"), Atom: a.Atom}
+				}
+				return mgVal{Txt: "negb " + a.par(), T: mgBuiltin("bool")}
+			}
+			mgFail(x, "comparison of %s with nil is outside the fragment", a.T)
+		}
+		if a.T != nil && b.T != nil && a.T.Kind == mgStr && b.T.Kind == mgStr {
+			return neg("str_eqb " + a.par() + " " + b.par())
+		}
+	}
 	shift := x.Op == token.SHL || x.Op == token.SHR
 	if shift {
 		// the count is any unsigned value or a non-negative constant; the result has the type of the left operand
@@ -425,17 +524,7 @@ func (c *mgCtx) binary(x *ast.BinaryExpr) mgVal {
 				mgFail(x, "division by the constant zero")
 			}
 		} else {
-			if c.inCond > 0 {
-				mgFail(x, "division by a non-constant under && or || (its panic cannot be hoisted)")
-			}
-			c.sawPartial = true
-			dup := false
-			for _, g := range c.guards {
-				dup = dup || g == b.par()
-			}
-			if !dup {
-				c.guards = append(c.guards, b.par())
-			}
+			c.hoist("if ("+b.par()+" =? 0) then None else", x, "division by a non-constant")
 		}
 	}
 	var body string
@@ -471,7 +560,7 @@ func (c *mgCtx) convert(t *mgType, arg ast.Expr, at ast.Node) mgVal {
 			return v
 		}
 		return mgVal{Txt: t.wrap() + " " + v.par(), T: t}
-	case mgStruct, mgBytes:
+	case mgStruct, mgBytes, mgStr, mgSlice:
 		if v.T == nil || !v.T.compatible(t) {
 			mgFail(at, "conversion of %s to %s", v.T, t)
 		}
@@ -495,13 +584,18 @@ func (c *mgCtx) args(call *ast.CallExpr, types []*mgType, what string) []string 
 
 // callee classifies the function part of a call.
 type mgCallee struct {
-	Conv   *mgType
-	Prim   *mgPrim
-	PrimQ  string
-	Fn     *mgFunc
-	Recv   *mgVal
-	Panic  bool
-	PutU32 bool
+	Conv     *mgType
+	Prim     *mgPrim
+	PrimQ    string
+	Fn       *mgFunc
+	Recv     *mgVal
+	Panic    bool
+	PutU32   bool
+	Built    string // len, append, make
+	ErrNew   bool   // errors.Errorf / Wrap / New
+	Trim     bool   // strings.Trim
+	Tuple    string // a multi-value primitive (statement form only)
+	stmtCall bool   // the call is the statement c.M(..)
 }
 
 func (c *mgCtx) callee(call *ast.CallExpr) mgCallee {
@@ -518,6 +612,10 @@ func (c *mgCtx) callee(call *ast.CallExpr) mgCallee {
 		}
 		if f.Name == "panic" {
 			return mgCallee{Panic: true}
+		}
+		switch f.Name {
+		case "len", "append", "make":
+			return mgCallee{Built: f.Name}
 		}
 		if t := c.m.resolveNamed(f.Name, f); t != nil {
 			return mgCallee{Conv: t}
@@ -549,6 +647,15 @@ func (c *mgCtx) callee(call *ast.CallExpr) mgCallee {
 			if q == "binary.BigEndian.PutUint32" {
 				return mgCallee{PutU32: true}
 			}
+			if mgErrorCtors[q] {
+				return mgCallee{ErrNew: true}
+			}
+			if q == "strings.Trim" {
+				return mgCallee{Trim: true}
+			}
+			if _, ok := mgTuplePrims[q]; ok {
+				return mgCallee{Tuple: q}
+			}
 			if p, ok := mgFuncPrims[q]; ok {
 				return mgCallee{Prim: &p, PrimQ: q}
 			}
@@ -559,7 +666,10 @@ func (c *mgCtx) callee(call *ast.CallExpr) mgCallee {
 			mgFail(call, "method call on an untyped constant")
 		}
 		switch recv.T.Kind {
-		case mgTime, mgAddr:
+		case mgTime, mgAddr, mgStr:
+			if recv.T.Name == "" {
+				mgFail(call, "method %s of a string", f.Sel.Name)
+			}
 			q := recv.T.Name + "." + f.Sel.Name
 			if q == "time.Time.Zone" {
 				mgFail(call, "t.Zone() is supported only as `_, off := t.Zone()`")
@@ -609,10 +719,17 @@ func (c *mgCtx) callText(call *ast.CallExpr, k mgCallee) (v mgVal, partial bool)
 		if fn.Err != "" {
 			mgFail(call, "callee %s was not translated", fn.Key)
 		}
+		if fn.PtrRecv && !k.stmtCall {
+			mgFail(call, "call of the pointer-receiver method %s in expression position (allowed as the statement c.%s(..))", fn.Key, fn.Decl.Name.Name)
+		}
 		parts := []string{fn.CoqName}
 		if fn.UsesLoc {
 			c.fn.UsesLoc = true
 			parts = append(parts, "loc")
+		}
+		if fn.UsesTZ {
+			c.fn.UsesTZ = true
+			parts = append(parts, "tzdb")
 		}
 		ps := fn.Params
 		if k.Recv != nil {
@@ -624,6 +741,9 @@ func (c *mgCtx) callText(call *ast.CallExpr, k mgCallee) (v mgVal, partial bool)
 			ts = append(ts, p.T)
 		}
 		parts = append(parts, c.args(call, ts, fn.Key)...)
+		if k.Recv == nil && fn.Decl.Recv != nil {
+			mgFail(call, "method %s called without a receiver", fn.Key)
+		}
 		return mgVal{Txt: strings.Join(parts, " "), T: fn.Res}, fn.Partial
 	}
 	mgFail(call, "call %s is outside the fragment", exprText(call))
@@ -642,12 +762,119 @@ func (c *mgCtx) call(x *ast.CallExpr) mgVal {
 		mgFail(x, "panic in expression position")
 	case k.PutU32:
 		mgFail(x, "binary.BigEndian.PutUint32 in expression position")
+	case k.Tuple != "":
+		mgFail(x, "%s in expression position (allowed as `a, b := %s(..)`)", k.Tuple, k.Tuple)
+	case k.ErrNew:
+		// the arguments are only formatted into the message, which is not modelled: literals and variables only
+		for _, a := range x.Args {
+			switch y := a.(type) {
+			case *ast.BasicLit:
+			case *ast.Ident:
+				if _, ok := c.env[y.Name]; !ok {
+					mgFail(a, "argument %s of %s is not a literal or a variable", exprText(a), exprText(x.Fun))
+				}
+			default:
+				mgFail(a, "argument %s of %s is not a literal or a variable", exprText(a), exprText(x.Fun))
+			}
+		}
+		return mgVal{Txt: "err_new", T: mgBuiltin("error"), Atom: true}
+	case k.Trim:
+		if len(x.Args) != 2 {
+			mgFail(x, "strings.Trim takes 2 arguments")
+		}
+		sv := c.coerce(c.expr(x.Args[0]), mgBuiltin("string"), x.Args[0])
+		lit, ok := x.Args[1].(*ast.BasicLit)
+		if !ok || lit.Kind != token.STRING {
+			mgFail(x, "strings.Trim: the cutset must be a string literal (model: TypeStr.trim_set, byte-wise)")
+		}
+		return mgVal{Txt: "str_Trim " + mgBytesLit(c.asciiLit(lit)) + " " + sv.par(), T: mgBuiltin("string")}
+	case k.Built != "":
+		return c.builtin(x, k.Built)
 	}
 	v, partial := c.callText(x, k)
 	if partial {
-		mgFail(x, "call of %s, which can panic, in expression position (allowed as `x := f(..)` or `return f(..)`)", exprText(x.Fun))
+		return c.bindPartial(v, x, "call of "+exprText(x.Fun)+", which can panic,")
 	}
 	return v
+}
+
+// strLit: the bytes of a string literal
+func (c *mgCtx) strLit(x *ast.BasicLit) []byte {
+	s, err := strconv.Unquote(x.Value)
+	if err != nil {
+		mgFail(x, "string literal %s", x.Value)
+	}
+	return []byte(s)
+}
+
+func (c *mgCtx) asciiLit(x *ast.BasicLit) []byte {
+	b := c.strLit(x)
+	for _, ch := range b {
+		if ch >= 0x80 {
+			mgFail(x, "string literal %s is not ASCII (the string primitives are modelled byte-wise)", x.Value)
+		}
+	}
+	return b
+}
+
+func mgBytesLit(b []byte) string {
+	if len(b) == 0 {
+		return "[]"
+	}
+	parts := make([]string, len(b))
+	for i, ch := range b {
+		parts[i] = fmt.Sprintf("%d%%N", ch)
+	}
+	return "[" + strings.Join(parts, "; ") + "]"
+}
+
+// len(s), append(s, e), append(s, t...), make([]T, len(s))
+func (c *mgCtx) builtin(x *ast.CallExpr, name string) mgVal {
+	switch name {
+	case "len":
+		if len(x.Args) != 1 {
+			mgFail(x, "len takes 1 argument")
+		}
+		s := c.expr(x.Args[0])
+		if s.T == nil || s.T.Kind != mgSlice {
+			mgFail(x, "len of %s (slices only)", s.T)
+		}
+		return mgVal{Txt: "slice_len " + s.par(), T: mgBuiltin("int")}
+	case "append":
+		if len(x.Args) != 2 {
+			mgFail(x, "append with %d arguments (append(s, e) and append(s, t...) only)", len(x.Args))
+		}
+		s := c.expr(x.Args[0])
+		if s.T == nil || s.T.Kind != mgSlice {
+			mgFail(x, "append to %s", s.T)
+		}
+		if x.Ellipsis != token.NoPos {
+			t := c.coerce(c.expr(x.Args[1]), s.T, x.Args[1])
+			return mgVal{Txt: s.par() + " ++ " + t.par(), T: s.T}
+		}
+		e := c.coerce(c.expr(x.Args[1]), s.T.Elem, x.Args[1])
+		return mgVal{Txt: s.par() + " ++ [" + e.Txt + "]", T: s.T}
+	case "make":
+		if len(x.Args) != 2 {
+			mgFail(x, "make with %d arguments (make([]T, len(s)) only)", len(x.Args))
+		}
+		t := c.m.typeOf(x.Args[0])
+		if t.Kind != mgSlice || t.Elem.Kind != mgInt {
+			mgFail(x, "make of %s (slices of integers only)", t)
+		}
+		n, ok := x.Args[1].(*ast.CallExpr)
+		var id *ast.Ident
+		if ok {
+			id, _ = n.Fun.(*ast.Ident)
+		}
+		if id == nil || id.Name != "len" {
+			mgFail(x, "make([]T, n): n must be len(s) (a negative length panics; not modelled)")
+		}
+		nv := c.expr(x.Args[1])
+		return mgVal{Txt: "slice_make " + nv.par(), T: t}
+	}
+	mgFail(x, "builtin %s", name)
+	return mgVal{}
 }
 
 func (c *mgCtx) zero(t *mgType, at ast.Node) string {
@@ -656,6 +883,12 @@ func (c *mgCtx) zero(t *mgType, at ast.Node) string {
 		return "0"
 	case mgBool:
 		return "false"
+	case mgLocOpt:
+		return "None"
+	case mgError:
+		return "err_nil"
+	case mgSlice, mgStr:
+		return "[]"
 	case mgBytes:
 		z := make([]string, t.N)
 		for i := range z {
